@@ -151,6 +151,9 @@ def read_text(
             blocks = [
                 delayed(attach_path)(entry, path) for entry, path in zip(blocks, paths)
             ]
+        if not blocks and raw_blocks:
+            # only empty files: no lines, as with blocksize=None
+            blocks = [delayed(list)([])]
 
     if not blocks:
         raise ValueError("No files found", urlpath)
